@@ -317,7 +317,7 @@ pub fn monitor_c06(out: &mut Out, b: &Dump, o: &Op, code: i64, a: &Dump, ctx: &C
                 && u256(b.bal) + q < (Uint256::from(1u8) << 128) && u256(b.pend) + u256(pf) < (Uint256::from(1u8) << 128);
             if !*neg || delta.is_zero() {
                 if can && code != 0 { fail_or_known(out, "C06", false, "repaying the quoted payback amount did not suffice", ctx); }
-            } else if code == 0 { fail_or_known(out, "C06", false, "a loan repaid with less than the quoted amount was accepted", ctx); }
+            } else if code == 0 && z > 0 { fail_or_known(out, "C06", false, "a loan repaid with less than the quoted amount was accepted", ctx); }
         }
     }
     // through the router: when the payload leaves the router with at least the quoted payback, the loan must go through
